@@ -114,6 +114,10 @@ fn run_all(kind: &str, input: &str, outdir: &str, threads: usize, budget: Durati
                         let sc: Value = serde_json::from_str(&lines[i]).expect("scenario json");
                         let evs = match kind.as_str() {
                             "exchange" => match util::gs(&sc, "kind") {
+                                "coding" => match genx::coding_row_to_scenario(&sc, i) {
+                                    Some(x) => exchange::run(&x),
+                                    None => vec![],
+                                },
                                 "framing" => match genx::framing_row_to_scenario(&sc) {
                                     Some(x) => exchange::run(&x),
                                     None => vec![],
